@@ -1318,3 +1318,45 @@ bus_service_list_queued_owners (BusService *service,
   _dbus_list_clear (return_list);
   return FALSE;
 }
+
+#ifdef DBUS_VERIF
+/* Verification hook (read-only): canonical text of the registry, one line per
+ * service: "svc <name> <owner>[:A][:D] ..." with owners in queue order. */
+dbus_bool_t bus_verif_dump_registry (BusRegistry *registry, DBusString *out);
+
+dbus_bool_t
+bus_verif_dump_registry (BusRegistry *registry,
+                         DBusString  *out)
+{
+  DBusHashIter iter;
+
+  _dbus_hash_iter_init (registry->service_hash, &iter);
+  while (_dbus_hash_iter_next (&iter))
+    {
+      BusService *service = _dbus_hash_iter_get_value (&iter);
+      DBusList *link;
+
+      if (!_dbus_string_append_printf (out, "svc %s", service->name))
+        return FALSE;
+
+      for (link = _dbus_list_get_first_link (&service->owners);
+           link != NULL;
+           link = _dbus_list_get_next_link (&service->owners, link))
+        {
+          BusOwner *owner = link->data;
+
+          if (!_dbus_string_append_printf (out, " %s%s%s",
+                                           bus_connection_is_active (owner->conn) ?
+                                             bus_connection_get_name (owner->conn) : "(inactive)",
+                                           owner->allow_replacement ? ":A" : "",
+                                           owner->do_not_queue ? ":D" : ""))
+            return FALSE;
+        }
+
+      if (!_dbus_string_append_byte (out, '\n'))
+        return FALSE;
+    }
+
+  return TRUE;
+}
+#endif /* DBUS_VERIF */
